@@ -97,7 +97,11 @@ pub(crate) fn rule_menus() -> Vec<RuleMenu> {
                 "current: 'path', target: {name: 'roblox', indexing_style: 'wait_for_child'}",
                 "current: {name: 'roblox'}, target: 'path'",
             ],
-            invalid: vec!["", "current: 'path'", "target: 'path'", "current: 'nope', target: 'path'", "current: 1, target: 'path'", "current: 'path', target: 'luau', extra: 1", "current: {name: 'path', unknown: 1}, target: 'luau'"],
+            invalid: vec!["", "current: 'path'", "target: 'path'", "current: 'nope', target: 'path'", "current: 1, target: 'path'", "current: 'path', target: 'luau', extra: 1", "current: {name: 'path', unknown: 1}, target: 'luau'",
+                // ill-typed modes: a number for the name, a list for the table
+                "current: {name: 0}, target: {name: 2}", "current: [1], target: 'path'", "current: ['path', 'index', {}, false], target: 'luau'", "current: 'path', target: [1, false, {pkg: './Packages'}]",
+                "current: 'path', target: {name: 'roblox', indexing_style: {name: 2}}", "current: 'path', target: {name: 'roblox', indexing_style: ['property']}", "current: 'path', target: {name: 'roblox', indexing_style: {name: 'property', extra: 1}}",
+                "current: {name: 'path', name: 'luau'}, target: 'path'", "current: {name: 'path', sources: {pkg: './a', pkg: './b'}}, target: 'luau'", "current: 'path', target: {name: 'luau', aliases: {'@pkg': './a', '@pkg': './b'}}", "current: {name: 'path', module_folder_name: 'init', module_folder_name: 'index'}, target: 'luau'", "current: {}, target: 'path'", "current: {name: null}, target: 'path'", "current: {name: 'Path'}, target: 'luau'"],
             requires_properties: true,
         },
         RuleMenu {
